@@ -160,11 +160,14 @@ func newWorld(cfg config, rng *rand.Rand, virtual bool) (*world, error) {
 }
 
 func (w *world) close(virtual bool) {
-	w.client.Close() // the cluster client closes its connections asynchronously
-	if virtual {
-		synctest.Wait()
+	if !virtual {
+		w.client.Close()
+		w.s.Close()
+		return
 	}
-	w.s.Close()
+	await(time.Hour, w.client.Close) // the cluster client closes its connections asynchronously
+	synctest.Wait()
+	await(time.Hour, w.s.Close)
 	if virtual {
 		time.Sleep(3 * time.Second) // a lazy topology refresh scheduled by a late close hook sleeps up to 1 s before it notices the client is closed
 	}
@@ -461,7 +464,10 @@ func runPrepared(t *testing.T, run *mon.Run, cfg config) {
 	// hits: read them once
 	if len(hits) > 0 {
 		pre := &batch{api: aMulti, keys: hits, ttl: ttl}
-		w.do(ctx, pre)
+		if !await(time.Hour, func() { w.do(ctx, pre) }) {
+			run.Violation("hang", cfg.topo+"/"+cfg.store, map[string]any{"config": cfg.String(), "what": "warm-up DoMultiCache never returned", "keys": hits, "rueidis_frames": drv.RueidisFrames(bubbleStacks())})
+			return
+		}
 		if pre.err != nil {
 			run.Inconclusive("prefetch failed: " + pre.err.Error())
 			return
@@ -522,7 +528,7 @@ func runPrepared(t *testing.T, run *mon.Run, cfg config) {
 		if ns == 0 {
 			run.Inconclusive("no connection was holding a pending request")
 			w.s.Resume()
-			wg.Wait()
+			await(time.Hour, wg.Wait)
 			return
 		}
 		run.Observe("connections_holding_a_pending_request", int64(ns))
@@ -541,7 +547,17 @@ func runPrepared(t *testing.T, run *mon.Run, cfg config) {
 	}
 	w.s.ClearPlan()
 	w.s.Resume()
-	wg.Wait()
+	if !await(time.Hour, wg.Wait) { // bounded in virtual time: it only runs out when every goroutine is durably blocked
+		stacks := bubbleStacks()
+		var stuck []string
+		for _, b := range append(append([]*batch{}, batches...), others...) {
+			if !b.done {
+				stuck = append(stuck, b.String())
+			}
+		}
+		run.Violation("hang", cfg.topo+"/"+cfg.store, map[string]any{"config": cfg.String(), "what": "batches never returned after the server was released", "stuck": stuck, "state": fmt.Sprint(state), "rueidis_frames": drv.RueidisFrames(stacks), "stacks": drv.Tail(stacks, 12000)})
+		return
+	}
 	synctest.Wait()
 	for _, b := range batches {
 		w.check(run, b, state, "prepared")
@@ -626,7 +642,7 @@ func TestC11(t *testing.T) {
 		}
 		return cfg
 	}
-	n := run.N(240, 12000)
+	n := run.N(360, 12000)
 	t0 := time.Now()
 	for i := 0; i < n; i++ {
 		cfg := mk(i)
